@@ -3376,7 +3376,24 @@ class Mailbox:
         mbox.num_msgs = 0
         mbox.num_recent = 0
         mbox.uids = []
+        mbox.msg_keys = []
+        mbox._rebuild_index_dicts()
         mbox.sequences = defaultdict(set)
+
+        # NOTE: If the folder stays (the mailbox has inferiors, or is
+        #       subscribed) its `.mh_sequences` must not go on naming the
+        #       messages that are gone: the next message an MH agent stores
+        #       in the folder gets the number 1, and their flags with it.
+        #
+        async with mbox.mh_sequences_lock:
+            try:
+                mbox.mailbox.set_sequences({})
+            except Exception as exc:
+                logger.warning(
+                    "Mailbox '%s': unable to clear .mh_sequences: %s",
+                    name,
+                    exc,
+                )
 
         # If the mailbox has any active clients we set their selected
         # mailbox to None. client.py will know if they try to do any
